@@ -4,7 +4,7 @@ import "fmt"
 
 // family singlefault (C02): converged semi-sync cluster, exactly one fault, heal, converge.
 func genSingleFault(r *rng, index int) *Spec {
-	sp := baseSpec(r, shapeOpt{minHA: 2, maxHA: 4, cascade: 0.3, semiSync: pb(true)})
+	sp := baseSpec(r, shapeOpt{minHA: 2, maxHA: 4, cascade: 0.4, semiSync: pb(true)})
 	c := &sp.Cfg
 	c.Failover = r.chance(0.8)
 	c.FailoverCooldownMs = 0
@@ -24,6 +24,11 @@ func genSingleFault(r *rng, index int) *Spec {
 	target := targets[r.intn(len(targets))]
 	if index%3 == 0 {
 		target = ha[0] // the master, most interesting
+	}
+	// the master loses only its health record while every HA replica keeps streaming: a cascade
+	// replica must not change the outcome
+	if (kind == "kill_daemon" || kind == "stop_daemon" || kind == "cut_zk") && target == ha[0] && len(targets) == len(ha) && r.chance(0.7) {
+		sp.Hosts = append(sp.Hosts, HostSpec{Name: "c1", Role: "cascade", StreamFrom: ha[r.intn(len(ha))]})
 	}
 	at := int64(15000) + int64(r.intn(int(c.TickMs+c.HealthMs)))
 	durs := []int64{500, 1500, c.SessionTimeoutMs / 2, c.SessionTimeoutMs + 1000, c.FailoverDelayMs + c.SessionTimeoutMs + 3000, 30000, 60000}
